@@ -72,6 +72,10 @@ func init() {
 					need = []string{"reads-during-reload"}
 				}
 				jobs = append(jobs, concJob("staleGet("+o+")‖readers/"+ex, cfg, []string{"set 1", "adv 50"}, [][]string{{"load 1 " + o}, {"get 1", "get 1"}}, []string{"refresh-readers", "audit"}, "native", 12, true, 4, 60, need...))
+				// a second loader-backed Get while the reload is being swapped in (fine-grained: the window is inside the install)
+				if o == "val" {
+					jobs = append(jobs, concJob("staleGet‖Get(fine)/"+ex, cfg, []string{"set 1", "adv 50"}, [][]string{{"load 1 val"}, {"load 1 val", "load 1 val"}}, []string{"refresh-readers", "audit"}, "native", 1, false, 8, 60))
+				}
 				// an explicit Refresh that joins the reload started by a stale read (or another Refresh, or a loading Get)
 				jobs = append(jobs, concJob("staleGet("+o+")‖Refresh/"+ex, cfg, []string{"set 1", "adv 50"}, [][]string{{"load 1 " + o}, {"refresh 1 val"}}, []string{"refresh-results", "refresh-readers", "audit"}, "native", 12, true, 4, 60, "refresh-results"))
 				jobs = append(jobs, concJob("Refresh("+o+")‖Refresh/"+ex, cfg, []string{"set 1"}, [][]string{{"refresh 1 " + o}, {"refresh 1 val"}}, []string{"refresh-results", "audit"}, "native", 12, true, 4, 60, "refresh-results"))
@@ -118,6 +122,32 @@ func init() {
 		spread := []uint64{hsh(0, 1), hsh(2, 2), hsh(4, 3), hsh(6, 4), hsh(0, 5), hsh(2, 6), hsh(1, 7), hsh(3, 8), hsh(1, 9), hsh(3, 10), hsh(5, 11)}
 		fill8 := []string{"set 0", "set 1", "set 2", "set 3", "set 4", "set 6", "set 7", "set 8"}
 		jobs = append(jobs, concJob("All‖grow", CacheCfg{Hashes: spread, InitCap: 1}, fill8, [][]string{{"all"}, {"set 5", "inv 1"}}, or, "small", pb, false, 8, budget, "iterations-checked", "table-grew"))
+		return jobs
+	}
+
+	// ---- C08 sequential part: no in-flight record survives any loading call, whatever the loader does ----
+	conc08 := plans["C08"]
+	plans["C08"] = func(thorough bool) []*Job {
+		jobs := conc08(thorough)
+		kinds := []string{"inflight-left", "loader-calls", "refresh-channel", "result-mismatch"}
+		for _, cfg := range []CacheCfg{
+			{Refresh: "writing", RefreshTTL: 40, ClockStart: 1 << 40},
+			{MaxSize: 3, Expiry: "writing", TTL: 100, Refresh: "creating", RefreshTTL: 40, ClockStart: 1 << 40},
+		} {
+			var a []string
+			for _, o := range []string{"val", "err", "nf", "panic", "valerr"} {
+				a = append(a, "load 1 "+o, "refresh 1 "+o, "refresh 2 "+o)
+			}
+			for _, sh := range []string{"full", "partial", "extra", "empty", "err", "nf", "panic"} {
+				a = append(a, "bulk 1,2 "+sh, "bulkrefresh 1,2 "+sh, "bulkrefresh 2,3 "+sh)
+			}
+			a = append(a, "set 1", "set 2", "inv 1", "adv 50", "adv 100")
+			depth := 3
+			if thorough {
+				depth = 4
+			}
+			jobs = append(jobs, seqJob(seqParams{Cfg: cfg, Alphabet: a, Kinds: kinds}, depth, 4, 120))
+		}
 		return jobs
 	}
 }
